@@ -172,7 +172,11 @@ static size_t lha_lz5_read(void *data, uint8_t *buf)
 			uint8_t cmd[2];
 			unsigned int seqstart, seqlen;
 
-			if (!decoder->callback(cmd, 2, decoder->callback_data)) {
+			// Both bytes of the command are needed; if the input
+			// ends after the first one, the command is incomplete.
+
+			if (decoder->callback(cmd, 2,
+			                      decoder->callback_data) < 2) {
 				break;
 			}
 
